@@ -445,7 +445,10 @@ func (self *Fork) updateId(id ForkId) {
 	}
 	// If we updated the path, we should load stage defs and create chunks.
 	if self.path != oldPath {
-		if err := self.split_metadata.ReadInto(StageDefsFile, &self.stageDefs); err == nil {
+		if err := self.split_metadata.ReadInto(StageDefsFile, &self.stageDefs); self.stageDefs == nil {
+			// A JSON null leaves a nil pointer behind.
+			self.stageDefs = &StageDefs{ChunkDefs: []*ChunkDef{new(ChunkDef)}}
+		} else if err == nil {
 			width := util.WidthForInt(len(self.stageDefs.ChunkDefs))
 			self.chunks = make([]*Chunk, 0, len(self.stageDefs.ChunkDefs))
 			for i, chunkDef := range self.stageDefs.ChunkDefs {
@@ -1083,8 +1086,16 @@ func (self *Fork) doChunks(state MetadataState, getBindings func() MarshalerMap)
 		self.split_metadata.poll()
 	}
 	if self.split_metadata.exists(StageDefsFile) {
-		if err := self.split_metadata.ReadInto(StageDefsFile, &self.stageDefs); err != nil {
-			errstring := err.Error()
+		if err := self.split_metadata.ReadInto(StageDefsFile, &self.stageDefs); err != nil ||
+			self.stageDefs == nil {
+			errstring := "the value was null"
+			if err != nil {
+				errstring = err.Error()
+			}
+			if self.stageDefs == nil {
+				// A JSON null leaves a nil pointer behind.
+				self.stageDefs = &StageDefs{ChunkDefs: []*ChunkDef{new(ChunkDef)}}
+			}
 			self.split_metadata.WriteErrorString(fmt.Sprintf(
 				`The split method did not return a dictionary {"chunks": [{}], "join": {}}.
 Error: %s
